@@ -284,14 +284,29 @@ def render(d):
             out += "(%s);\n" % ", ".join(
                 ".%s({%s})" % (p["name"], ", ".join(p["alias"])) if "alias" in p else p["name"]
                 for p in ports)
-            for p in ports:
+            group_ports = ch.flag(1, 2)
+            done = set()
+            for k, p in enumerate(ports):
+                if k in done:
+                    continue
                 if "alias" in p:
                     info["alias"] = info.get("alias", 0) + 1
                     for an in p["alias"]:
                         out += "  %s %s;\n" % (p["dir"], an)
                     continue
+                names = [p["name"]]
+                if group_ports:
+                    # several ports of one direction and range in one statement: input [3:0] a, b;
+                    for k2 in range(k + 1, len(ports)):
+                        q_ = ports[k2]
+                        if k2 not in done and "alias" not in q_ and q_["dir"] == p["dir"] \
+                                and q_["w"] == p["w"]:
+                            names.append(q_["name"])
+                            done.add(k2)
+                    if len(names) > 1:
+                        info["ports_in_one_statement"] = info.get("ports_in_one_statement", 0) + 1
                 out += "  %s %s%s%s;\n%s" % (p["dir"], "wire " if ch.flag(1, 4) else "", rng(p["w"]),
-                                              p["name"], comment())
+                                              ", ".join(names), comment())
         return out
 
     blocks = []  # (key, text)
